@@ -824,7 +824,7 @@ var rR23s = RuleRef{Name: "R23s", Doc: "per-connection selection: no code reacha
 				dbArg = a
 			}
 		}
-		good := dbArg != nil && strings.Contains(canon(dbArg), "st.db")
+		good := dbArg != nil && strings.HasSuffix(canon(dbArg), ".db") && !strings.HasPrefix(canon(dbArg), "recv.")
 		c.Add("R23s", fnName(d.Parent()), "the executor runs against the database selected by the calling connection", d.Pos(), good, "database operand: "+func() string {
 			if dbArg == nil {
 				return "none"
